@@ -88,7 +88,7 @@ def hash_role(role):
 
 
 def baseline(rng, i):
-    prof = dict(p_continue=0.0, p_reset=0.0, n_lo=10, n_hi=45, p_struct=0.7, p_selflock=0.2, max_stages=3, p_currents=0.75)
+    prof = dict(p_continue=0.0, p_reset=0.0, n_lo=10, n_hi=45, p_struct=0.7, p_selflock=0.2, max_stages=3, p_currents=0.75, p_noload_start=0.0)
     spec = GEN.gen_scenario(rng, prof)
     spec['_any_unit'] = True
     n = spec['_ref']['n']
